@@ -623,9 +623,6 @@ impl<T: Qcow2IoOps> Qcow2Dev<T> {
         let bs_mask = bs - 1;
         let mut len = buf.len();
         let old_offset = offset;
-        let single =
-            (offset >> info.cluster_bits()) == ((offset + (len as u64) - 1) >> info.cluster_bits());
-
         log::debug!("write_at offset {:x} len {} >>>", offset, buf.len());
 
         if offset
@@ -647,6 +644,15 @@ impl<T: Qcow2IoOps> Qcow2Dev<T> {
         if info.is_read_only() {
             return Err("write_at: write to read-only image".into());
         }
+
+        if len == 0 {
+            return Ok(());
+        }
+
+        // evaluated only now: `offset + len` is known not to overflow and
+        // `len` to be non-zero
+        let single =
+            (offset >> info.cluster_bits()) == ((offset + (len as u64) - 1) >> info.cluster_bits());
 
         if single {
             let l2_entry = self.populate_single_write_mapping(offset).await?;
